@@ -89,3 +89,54 @@ def first_diff(a, b, path=""):
     if a != b:
         return "%s: %r vs %r" % (path or ".", a, b)
     return None
+
+
+def schema_digest(schema):
+    """Description of a schema through its public accessors: types, implementers of abstract
+    types, children (key, attribute, kind, min/max occurrence, datatype name, handler), raw
+    defaults."""
+    reg = getattr(schema, "registry", None)
+
+    def dtname(f):
+        if f is None:
+            return None
+        try:
+            return reg.find_name(f) if reg is not None else repr(f)
+        except Exception:
+            return getattr(f, "__name__", type(f).__name__)
+
+    def info_digest(key, ci):
+        d = {"key": key, "name": ci.name, "attribute": ci.attribute, "kind": type(ci).__name__,
+             "min": ci.minOccurs, "max": "unbounded" if ci.maxOccurs > 10 ** 6 else ci.maxOccurs,
+             "handler": ci.handler, "datatype": dtname(ci.datatype)}
+        if ci.issection():
+            d["sectiontype"] = ci.sectiontype.name
+        else:
+            dv = ci.getdefault()
+            d["default"] = default_digest(dv)
+        return d
+
+    def default_digest(dv):
+        if dv is None:
+            return None
+        if isinstance(dv, list):
+            return [default_digest(x) for x in dv]
+        if isinstance(dv, dict):
+            return {k: default_digest(x) for k, x in dv.items()}
+        if hasattr(dv, "value"):
+            return {"raw": dv.value}
+        return repr(dv)
+
+    def type_digest(t):
+        if t.isabstract():
+            return {"abstract": True, "implementers": list(t.getsubtypenames())}
+        return {"abstract": False, "keytype": dtname(t.keytype), "datatype": dtname(t.datatype),
+                "children": [info_digest(k, ci) for k, ci in t]}
+
+    out = {"top": {"keytype": dtname(schema.keytype), "datatype": dtname(schema.datatype),
+                   "handler": schema.handler,
+                   "children": [info_digest(k, ci) for k, ci in schema]},
+           "types": {}}
+    for n in sorted(schema.gettypenames()):
+        out["types"][n] = type_digest(schema.gettype(n))
+    return out
